@@ -21,6 +21,37 @@ def nontrivial(ivs):
     return False
 
 
+def merged_cover(ivs):
+    """the canonical cover (python reference, used only to aim the generator)"""
+    out = []
+    for a, b in sorted(ivs):
+        if out and a <= out[-1][1]:
+            out[-1][1] = max(out[-1][1], b)
+        else:
+            out.append([a, b])
+    return [tuple(x) for x in out]
+
+
+def touching_insert(rng, cur, mode):
+    """an interval that touches a merged block without overlapping it (book-ended), or exactly fills a gap"""
+    cov = merged_cover(cur)
+    w = G.width(mode)
+    if not cov:
+        return None
+    i = rng.randrange(len(cov))
+    a, b = cov[i]
+    r = rng.random()
+    if r < 0.4 and b < w:
+        hi = cov[i + 1][0] if i + 1 < len(cov) else w
+        return (b, min(w, rng.choice([b + 1, b + 2, hi])) if hi > b else b + 1)
+    if r < 0.8 and a > 0:
+        lo = cov[i - 1][1] if i > 0 else 0
+        return (rng.choice([max(lo, a - 2), a - 1, lo]) if a - 1 >= lo else a - 1, a)
+    if i + 1 < len(cov):
+        return (b, cov[i + 1][0])
+    return None
+
+
 def gen(rng, tier):
     n = 1200 if tier == 'quick' else 30000
     for _ in range(n):
@@ -39,6 +70,12 @@ def gen(rng, tier):
             s, e = G.rand_ivs(rng, mode, 1, 'ne')[0]
             ops.append(['ins', s, e, nid]); nid += 1; cur.append((s, e))
         ops += [['merge'], ['ivs'], ['len'], ['merge'], ['ivs']]
+        # merge ; insert something that only touches a merged block ; merge again (the re-merge must fuse them)
+        for _t in range(rng.choice([0, 1, 1, 2])):
+            t = touching_insert(rng, cur, mode)
+            if t and t[0] < t[1]:
+                ops.append(['ins', t[0], t[1], nid]); nid += 1; cur.append(t)
+                ops += [['merge'], ['ivs'], ['count', t[0], t[1]], ['cov']]
         for _ in range(rng.randint(2, 10)):
             r = rng.random()
             pts = G.points(cur, mode)
